@@ -49,6 +49,8 @@ def _from_frame(f, name, event_kind, via_user):
             out['kind'] = {'P': 'P-get', '[': 'item-get', '.': 'attr-get'}[op]
         elif op in ('x', 'X'):
             out['kind'] = 'wildcard'
+        elif event_kind == 'arith' and isinstance(op, str) and op in '+-*/%:&|^~_#':
+            out['kind'] = 'arith'
         else:
             out['kind'] = 'other'
         return out
